@@ -211,6 +211,35 @@ pub fn endpoints() -> Vec<EndpointD> {
             }],
         },
         EndpointD {
+            name: "enumMapBody",
+            method: Method::POST,
+            segments: vec!["u", "enummap", "{}"],
+            handler: "enum_map_body",
+            args: vec![arg(0, Path, "id", "integer", true, true, true), {
+                // map<Color, StrAlias>: a safe key does not make the unannotated values safe
+                let mut a = arg(1, Body, "body", "string", false, true, true);
+                a.valid = format!("{{\"RED\":\"{}\",\"GREEN\":\"x\"}}", a.taint);
+                a.bad = format!("{{\"RED\":[\"{}\"]}}", a.taint);
+                a.typed = true;
+                a
+            }],
+        },
+        EndpointD {
+            name: "safeEnumMapBody",
+            method: Method::POST,
+            segments: vec!["u", "safeenummap", "{}"],
+            handler: "safe_enum_map_body",
+            args: vec![arg(0, Path, "id", "integer", false, true, true), {
+                // map<Color, list<Color>>: safe by type, recorded although nothing is declared
+                let mut a = arg(1, Body, "body", "string", true, true, true);
+                a.valid = "{\"RED\":[\"GREEN\",\"DARK_BLUE\"]}".to_string();
+                a.taint = "DARK_BLUE".to_string();
+                a.bad = "{\"RED\":[5]}".to_string();
+                a.typed = true;
+                a
+            }],
+        },
+        EndpointD {
             name: "authHeaderBody",
             method: Method::POST,
             segments: vec!["u", "auth", "header"],
